@@ -122,6 +122,28 @@ def chain_docs(tier):
         docs.append(("clip-cycle", f'<svg {NS} viewBox="0 0 100 100"><defs>{cl}</defs><rect width="80" height="80" clip-path="url(#c0)"/></svg>'))
         gr = "".join(f'<linearGradient id="g{i}" xlink:href="#g{(i + 1) % L}"/>' for i in range(L))
         docs.append(("gradient-cycle", f'<svg {NS} viewBox="0 0 100 100"><defs>{gr}</defs><rect width="80" height="80" fill="url(#g0)" transform="translate(1 1)"/></svg>'))
+    # the same cycles with one link / every link SPELLED differently (padded fragment, quoted url, upper case):
+    # whatever spelling the instantiating code accepts, the cycle guard must accept too
+    HS = ["#{} ", "# {}", " #{}", "#{}\t", "#{}&#10;"]
+    US = ["url(#{} )", "url( #{})", "url('#{}')", 'url(&quot;#{}&quot;)', " url(#{})", "url(#{}) "]
+    for L in (1, 2, 3):
+        for which in (["last", "all"] if L > 1 else ["all"]):
+            sel = (lambda i: True) if which == "all" else (lambda i: i == L - 1)
+            for h in HS:
+                ref = lambda i: (h if sel(i) else "#{}").format(f"u{(i + 1) % L}")
+                cyc = "".join(f'<use id="u{i}" xlink:href="{ref(i)}" x="1"/>' for i in range(L))
+                docs.append(("spelled-use-cycle", f'<svg {NS} viewBox="0 0 100 100"><defs>{cyc}</defs><use xlink:href="#u0"/></svg>'))
+                cyc = "".join(f'<g id="u{i}"><rect width="2" height="2"/>' + f'<use xlink:href="{ref(i)}" x="1"/>' * 2 + "</g>" for i in range(L))
+                docs.append(("spelled-branching-use-cycle", f'<svg {NS} viewBox="0 0 100 100"><defs>{cyc}</defs><use xlink:href="#u0"/></svg>'))
+                cyc = "".join(f'<clipPath id="u{i}"><use xlink:href="{ref(i)}"/><rect width="9" height="9"/></clipPath>' for i in range(L))
+                docs.append(("spelled-clip-use-cycle", f'<svg {NS} viewBox="0 0 100 100"><defs>{cyc}</defs><rect width="50" height="50" clip-path="url(#u0)"/></svg>'))
+                gref = lambda i: (h if sel(i) else "#{}").format(f"g{(i + 1) % L}")
+                gr = "".join(f'<linearGradient id="g{i}" xlink:href="{gref(i)}"/>' for i in range(L))
+                docs.append(("spelled-gradient-cycle", f'<svg {NS} viewBox="0 0 100 100"><defs>{gr}</defs><rect width="80" height="80" fill="url(#g0)" transform="translate(1 1)"/></svg>'))
+            for u in US:
+                cref = lambda i: (u if sel(i) else "url(#{})").format(f"c{(i + 1) % L}")
+                cl = "".join(f'<clipPath id="c{i}" clip-path="{cref(i)}"><rect width="{50 - i}" height="50"/></clipPath>' for i in range(L))
+                docs.append(("spelled-clip-cycle", f'<svg {NS} viewBox="0 0 100 100"><defs>{cl}</defs><rect width="80" height="80" clip-path="{u.format("c0")}"/></svg>'))
     # doubling chain a_i -> 2 x a_{i+1}
     for depth in range(1, 5 if tier == "quick" else 7):
         defs = "".join(f'<g id="a{i}"><use xlink:href="#a{i + 1}" x="1"/><use xlink:href="#a{i + 1}" y="1"/></g>' for i in range(depth)) + f'<rect id="a{depth}" width="3" height="3"/>'
